@@ -345,7 +345,94 @@ def run(prog, tier) -> Result:
     # (R15.6, the initialisation-order rule over the call graph, became redundant: R15.7 evaluates class creation and
     # requires the new type's own unit map to list exactly its reference unit, with no write to any other map)
 
+    # ---- R15.8 the algebra of type definitions: `Length / Duration`, `Mass * Length ** 2 / Duration ** 2` are built
+    # by the metaclass's operators; the term they give has exactly the exponents written, whatever the operand kinds
+    # (class op class, class op term, term op class), and a class's own definition is itself / the given term
+    def alg_body(expr):
+        def body(I, c):
+            I.models.term_objects = True
+            for t in ("T1", "T2", "T3"):
+                c.new_type(t, has_ref=True, has_quantum=False, money=False)
+                c.st.type_defs[t] = "base"
+            for a_, b_ in (("T1", "T2"), ("T1", "T3"), ("T2", "T3")):
+                c.st.distinct_types(a_, b_)
+            env = {"A": ClsV("T1"), "B": ClsV("T2"), "C": ClsV("T3")}
+            m = I.models
+
+            def ev(n):
+                if isinstance(n, ast.Name):
+                    return env[n.id]
+                if isinstance(n, ast.Constant):
+                    return Num(RF.const(n.value), "int")
+                if isinstance(n, ast.UnaryOp) and isinstance(n.op, ast.USub):
+                    return Num(RF.const(-n.operand.value), "int")
+                if isinstance(n, ast.BinOp):
+                    return m.binop(type(n.op), ev(n.left), ev(n.right), None)
+                raise AnalysisError("class algebra scenario")
+            return ev(ast.parse(expr, mode="eval").body)
+        return body
+
+    def alg_judge(want):
+        def judge(o):
+            if o.kind == "raise":
+                return (exc_sig(o), "the definition term cannot be built")
+            v = o.value
+            if not (isinstance(v, ObjV) and v.ci is not None and v.ci.name == "Term"):
+                return ("class algebra does not give a term", repr(v))
+            items = v.fields.get("_items")
+            got = {}
+            for it in getattr(items, "items", []):
+                e, x = it.items
+                if not isinstance(e, ClsV) or not isinstance(x, Num) or not o.state.norm(x.rf).is_const():
+                    return ("definition term holds something else than (class, integer exponent) items", repr(items))
+                k = o.state.tfind(e.tid)
+                got[k] = got.get(k, 0) + int(o.state.norm(x.rf).const_value())
+            got = {k: e for k, e in got.items() if e}
+            if got != want:
+                return ("definition term does not have the exponents written",
+                        f"term {items!r} denotes {got}, the expression denotes {want}")
+            return None
+        return judge
+    ALG = [("A * B", {"T1": 1, "T2": 1}), ("A / B", {"T1": 1, "T2": -1}), ("A ** 2", {"T1": 2}), ("A ** -1", {"T1": -1}),
+           ("(A / B) * C", {"T1": 1, "T2": -1, "T3": 1}), ("C * (A / B)", {"T1": 1, "T2": -1, "T3": 1}),
+           ("(A * B) / C", {"T1": 1, "T2": 1, "T3": -1}), ("C / (A * B)", {"T1": -1, "T2": -1, "T3": 1}),
+           ("A / B ** 2", {"T1": 1, "T2": -2}), ("A * B ** 2 / C ** 3", {"T1": 1, "T2": 2, "T3": -3}),
+           ("A / A", {}), ("A * A", {"T1": 2}), ("(A / B) / (C / B)", {"T1": 1, "T3": -1})]
+    for expr, want in ALG:
+        run_entry(prog, res, "R15.8", "ClassWithDefinitionMeta operators", f"definition {expr}", alg_body(expr), alg_judge(want),
+                  max_depth=14)
+
+    def defn_body(derived, what):
+        def body(I, c):
+            I.models.term_objects = True
+            for t in ("T1", "T2"):
+                c.new_type(t, has_ref=True, has_quantum=False, money=False)
+                c.st.type_defs[t] = "base"
+            c.st.distinct_types("T1", "T2")
+            c.new_type("D", has_ref=True, has_quantum=False, money=False)
+            if derived:
+                c.st.type_defs["D"] = I.models.binop(ast.Div, ClsV("T1"), ClsV("T2"), None)
+            else:
+                c.st.type_defs["D"] = "base"
+            v = I.models.get_attr(ClsV("D"), what, None)
+            if what in ("is_base_cls", "is_derived_cls"):
+                v = I.models.call(v, [], {}, None)
+                return BoolV(I.models.truth(v, None))
+            return v
+        return body
+    for derived in (False, True):
+        want = {"T1": 1, "T2": -1} if derived else {"D": 1}
+        for what in ("definition", "normalized_definition"):
+            run_entry(prog, res, "R15.8", f"ClassWithDefinitionMeta.{what}", f"{what} of a {'derived' if derived else 'base'} type",
+                      defn_body(derived, what), alg_judge(want), max_depth=14)
+        for what, val in (("is_base_cls", not derived), ("is_derived_cls", derived)):
+            run_entry(prog, res, "R15.8", f"ClassWithDefinitionMeta.{what}", f"{what} of a {'derived' if derived else 'base'} type",
+                      defn_body(derived, what),
+                      lambda o, val=val: (exc_sig(o), "") if o.kind == "raise" else
+                      (None if isinstance(o.value, BoolV) and o.value.val == val else ("wrong answer", repr(o.value))), max_depth=14)
+
     res.require("R15.1", 2)
+    res.require("R15.8", 20)
     res.require("R15.5", 13)
     res.require("R15.7", 4)
     return res
